@@ -12,9 +12,31 @@
     resolver functions (including lookups/imports that return nothing or an
     out-of-range index), under the documented contract that the version
     validator admits only majors 1 and 2.
-  Statements only; proofs in Saltpack/Proofs/NoPanic.lean.
+  Statements only; proofs in Saltpack/Proofs/NoPanic.lean, ClassifyTotal.lean.
+
+  TWO INTERFACE BEHAVIOURS THE MODEL CANNOT EXPRESS (outside every theorem
+  below; both concern what the APPLICATION's key objects return, not the
+  attacker's bytes):
+  * a nil element in `Keyring.GetAllBoxSecretKeys()`.  The model's
+    `Keyring.getAllBoxSecretKeys : List Bytes` has no nil entries.  In Go,
+    `decryptStream.tryHiddenReceivers` calls `secretKey.Precompute(...)` and
+    `signcryptOpenStream.tryBoxSecretKeys` calls
+    `derivedEphemeralKeyFromBoxKeys(ephemeralPub, receiverBoxSecretKey)` →
+    `private.Box(...)` on every element without a nil check: a nil interface
+    value there is a nil dereference (run-time panic).  (nil RESULTS of
+    `LookupBoxSecretKey`, `LookupBoxPublicKey`, `ImportBoxEphemeralKey`,
+    `LookupSigningPublicKey` ARE modelled — `Option` — and covered.)
+  * key objects returning short boxes.  `Prims.box` is a function to `Bytes` of
+    unconstrained length only in the abstract; the model's `macKeySingle` /
+    `derivedKeyFromBoxKeys` take the Go slices `macKeyBox[16:48]` and
+    `sharedSecretBox[len-32:]` as total `List` operations, whereas Go panics
+    (slice bounds out of range) if a `BoxSecretKey.Box` implementation returns
+    fewer than 48 resp. 32 bytes for a 32-byte plaintext.  The shipped `basic`
+    keys (NaCl box: plaintext + 16) never do; a custom key object that does is
+    outside what these theorems cover.
 -/
 import Saltpack.Proofs.NoPanic
+import Saltpack.Proofs.ClassifyTotal
 import Saltpack.Gen.Inventory
 import Saltpack.Model.Armor
 import Saltpack.Toy
@@ -36,6 +58,35 @@ open Saltpack Saltpack.Proofs
     (constant lengths).  Sending side only: the rest.  A new site changes this
     list and breaks this obligation before any input is needed. -/
 theorem C15_panic_inventory : Gen.panicFunctions = ["basic.Keyring.GenerateSigningKey", "sp.IsSaltpackArmoredPrefix", "sp.ReceiverSymmetricKey.makeReceiverKeys", "sp.assertEncodedChunkState", "sp.attachedSignatureInput", "sp.checkChunkState", "sp.checkEncryptBlockRead", "sp.checkSignBlockRead", "sp.checkSigncryptReceiverCount", "sp.chunkReader.Read", "sp.computeMACKeyReceiver", "sp.computeMACKeySender", "sp.computePayloadHash", "sp.copyEqualSize", "sp.copyEqualSizeStr", "sp.csprngShuffle", "sp.derivedEphemeralKeyFromBoxKeys", "sp.encryptStream.Close", "sp.makeEncryptionBlock", "sp.makeSignatureBlock", "sp.nonceForPayloadKeyBox", "sp.readEncryptionBlock", "sp.readSignatureBlock", "sp.signAttachedStream.Close", "sp.signcryptOpenStream.trySharedSymmetricKeys", "sp.signcryptSealStream.Close", "sp.signcryptSealStream.init", "sp.signcryptSealStream.signcryptBlock"] := rfl
+
+/-- **The classifier's `panic("logic error …")` site is unreachable.**
+    `IsSaltpackArmoredPrefix` (classify_and_decrypt.go) panics if, after its
+    five-words regular expression accepted the prefix, `strings.Split` yields
+    more than five strings; the model returns
+    `.unmodelled "logic error in ClassifyStream"` there.  No input reaches it:
+    not `armoredPrefix`, not `binarySlice` (which has no such branch), not
+    `classifyStream`.  The proof needs `strings.TrimSpace`: the regular
+    expression tolerates ONE trailing empty word (`"a b c d e "` is accepted
+    and splits into six strings), which the preceding trim removes — the only
+    fact about `trimSpace` used is `Proofs.trimSpace_no_trailing_space`
+    (the result does not end in byte 32).  The remaining `unmodelled` answers
+    are not panics but shapes for which the model does not claim to know
+    go-codec's answer; they are the three listed. -/
+theorem C15_classifier_total (pref b all : Bytes) (size : Nat) :
+    Classify.armoredPrefix pref ≠ .unmodelled "logic error in ClassifyStream" ∧
+    Classify.binarySlice b ≠ .unmodelled "logic error in ClassifyStream" ∧
+    Classify.classifyStream size all ≠ .unmodelled "logic error in ClassifyStream" ∧
+    (∀ w, Classify.armoredPrefix pref = .unmodelled w ∨ Classify.binarySlice b = .unmodelled w ∨
+          Classify.classifyStream size all = .unmodelled w →
+      w = "message type shape" ∨ w = "version shape" ∨ w = "format name shape") :=
+  ⟨armoredPrefix_no_logic_error pref, binarySlice_no_logic_error b, classifyStream_no_logic_error size all,
+   fun w h => h.elim (armoredPrefix_unmodelled pref w)
+     (fun h => h.elim (binarySlice_unmodelled b w) (classifyStream_unmodelled size all w))⟩
+
+/-- the trim is needed: without it the five-words recogniser accepts a string
+    that splits into six -/
+example : Classify.fewWords [97, 32, 98, 32, 99, 32, 100, 32, 101, 32] = true ∧
+    (Armor.splitSp [97, 32, 98, 32, 99, 32, 100, 32, 101, 32]).length = 6 := by decide
 
 /-- the shipped validator satisfies the contract -/
 theorem C15_shipped_validator_ok : ValidatorOK knownMajor := knownMajor_ok
